@@ -16,14 +16,11 @@ package main
 
 import (
 	"fmt"
-	"os"
 	"strconv"
 
 	"verif/pmap"
 	"verif/vlib"
 )
-
-var scDebug = os.Getenv("VERIF_SCDEBUG") != ""
 
 type scCtor struct {
 	capacity int
@@ -415,9 +412,6 @@ func runSizeClass(c *vlib.Ctx, d *pmap.Descriptor, section string, i int, r *vli
 		}
 		tl := pmap.TableLen(h.in)
 		sizeBefore := h.m.Size()
-		if scDebug {
-			fmt.Printf("DBG %s stage %d target %d(%s) op %s size %d tab %d next %d nops %d\n", h.caseID, si, st.size, st.pos, name, sizeBefore, tl, next, h.nops)
-		}
 		for _, op := range h.scWholeOp(name, ikeys, &next, nextTh()) {
 			if h.dead {
 				break
